@@ -1,7 +1,7 @@
 (* Properties/C12.v — genomic binning.  Statements only; every proof is `exact`.
    All statements are about [gbins], i.e. the definition regenerated from
    /repo/gffutils/bins.py on every run. *)
-From GV Require Import Base.Prelude Model.Bins Proofs.BinsProofs Proofs.C12Proofs.
+From GV Require Import Base.Prelude Model.Bins Model.DB Model.Import Proofs.BinsProofs Proofs.C12Proofs Proofs.C12Import.
 Open Scope Z_scope.
 
 (* one=True: an integer that is a real bin of the 5-level scheme *)
@@ -64,3 +64,17 @@ Theorem C12_feature_bin : forall s e, gfeature_bin (Some s) (Some e) = Some (gbi
                           /\ (s < MAXC -> gfeature_bin (Some s) None = None).
 Proof. exact l_feature_bin. Qed.
 Print Assumptions C12_feature_bin.
+
+(* "The bin stored with every imported feature equals bins(start, end)": an invariant of whole imports by either importer,
+   under every strategy, id_spec and force_merge_fields, from any database whose bins are consistent - the empty one, and
+   hence, by induction, after every history of create_db and update calls (inserts, replacements and merges all keep it;
+   derived GTF features are binned from their derived coordinates) *)
+Theorem C12_import_gff_bins : forall call strat force spec fs st st',
+  import_gff call strat force spec fs st = Ok st' -> bins_ok st -> bins_ok st'.
+Proof. exact l_import_gff_bins. Qed.
+Print Assumptions C12_import_gff_bins.
+
+Theorem C12_import_gtf_bins : forall call g strat force spec fs st st',
+  import_gtf call g strat force spec fs st = Ok st' -> bins_ok st -> bins_ok st'.
+Proof. exact l_import_gtf_bins. Qed.
+Print Assumptions C12_import_gtf_bins.
